@@ -739,7 +739,8 @@ class CtrlAccept(Contract):
                 return None
             if bytes(fmtb) == b"%d" and E_.entails(start == g["base"] + c.s0):
                 return [status]
-            if bytes(fmtb) == b"%u %d" and E_.entails(start == g["base"] + 14):
+            if bytes(fmtb) == b"%u %d" and kind == "MEASURE" and E_.entails(z3.And(start == g["base"] + c.s1 + 1, status == 0)):
+                # results "<kHz> <dBm>" follow the status of an accepted MEASURE (the toolkit's proved reply format)
                 return [z3.Int("ghost.khz"), z3.Int("ghost.dbm")]
             return None
         E.sscanf_oracle = oracle
@@ -786,8 +787,14 @@ class CtrlAccept(Contract):
             posts.append(("nothing_further_sent", z3.BoolVal(len(new.ghost("sent", [])) == 0)))
             want = {"POWERON": TRX_STATE["ACTIVE"], "POWEROFF": TRX_STATE["IDLE"], "ECHO": TRX_STATE["IDLE"]}.get(kind)
             if kind == "MEASURE":
-                posts.append(("measure_result_handed_over_right_after_the_status", z3.BoolVal(len(meas) == 1) if len(meas) != 1 else z3.And(meas[0] == c.s1 + 1,
-                             z3.Implies(status == 0, meas[0] == 14))))
+                has_results = c.D(c.s1) == 32        # a space after the status: result text follows; otherwise the reply ends there
+                if len(meas) == 1:
+                    g_ = z3.And(has_results, meas[0] == c.s1 + 1, z3.Implies(status == 0, meas[0] == 14))
+                elif len(meas) == 0:
+                    g_ = z3.And(z3.Not(has_results), status != 0)          # only a refused MEASURE may come without results
+                else:
+                    g_ = z3.BoolVal(False)
+                posts.append(("measure_result_handed_over_right_after_the_status", g_))
                 posts.append(("no_state_change_for_measure", z3.BoolVal(len(chg) == 0)))
             else:
                 posts.append(("one_state_change", z3.BoolVal(len(chg) == 1)))
